@@ -210,6 +210,8 @@ class Fn:
         if self._aliases is None:
             decl = {}
             bad = set()
+            assigned = set()
+            bound = set()
             for b in self.blocks.values():
                 for e in b.elems:
                     for n in self.walk(e):
@@ -217,15 +219,21 @@ class Fn:
                             for v in n["vars"]:
                                 if v["n"] in decl:
                                     bad.add(v["n"])
+                                    assigned.add(v["n"])
                                 decl[v["n"]] = v.get("init")
+                                if v.get("bind"):
+                                    bound.add(v["n"])
                         elif n["k"] == "bin" and n["op"] in ASSIGN_OPS:
                             l = self.d(n["a"][0])
                             if l and l["k"] == "var":
                                 bad.add(l["n"])
+                                assigned.add(l["n"])
                         elif n["k"] == "un" and n["op"] in ("post++", "post--", "pre++", "pre--", "addr"):
                             l = self.d(n["a"][0])
                             if l and l["k"] == "var":
                                 bad.add(l["n"])
+                                if n["op"] != "addr":
+                                    assigned.add(l["n"])
             out = {}
             for name, init in decl.items():
                 if name in bad or init is None:
@@ -235,6 +243,15 @@ class Fn:
                     out[name] = i
                 elif i is not None and self._pure_expr(i, bad):
                     out[name] = i  # a temporary holding a side-effect-free expression over never-reassigned variables (also: a parameter of an expanded helper, sa/flatten.py)
+            # a parameter of an expanded helper bound to a plain variable of the caller names that variable, also when the
+            # helper passes its address on (an out-parameter that receives the same object back); never when it is assigned
+            for name in bound:
+                if name not in out and name not in assigned and decl.get(name) is not None:
+                    i = self.d(decl[name])
+                    while i is not None and i["k"] == "cast":
+                        i = self.d(i["a"][0])
+                    if i is not None and i["k"] == "var" and i["n"] not in assigned:
+                        out[name] = i
             # the result variable of an expanded helper with a single return: stands for the returned expression
             assigned = {}
             for b in self.blocks.values():
